@@ -1034,6 +1034,11 @@ def synchronized(name):
             if arbiter is not None:
                 if arbiter._restarting:
                     raise ConflictError("arbiter is restarting...")
+                if arbiter._stopping:
+                    # everything has been (or is being) stopped and the
+                    # arbiter is about to go away: starting anything now
+                    # would leave it behind
+                    raise ConflictError("arbiter is stopping...")
                 if arbiter._exclusive_running_command is not None:
                     raise ConflictError("arbiter is already running %s command"
                                         % arbiter._exclusive_running_command)
